@@ -157,6 +157,14 @@ def pass_case(case):
 
 TEMPLATE = {"X", "P", "N", "B", "L", "AUX", "__NEXT", "__PREV"}
 
+# source variables named like the variables the passes invent
+HAND_VARS = [
+    "{foo(X) : dom(X)}. hit(X0) :- cand(X0), 14 < #max{X : foo(X)}. #show hit/1.",
+    "{foo(X) : dom(X)}. hit(X0,X1) :- cand(X0), cand(X1), 14 > #min{X : foo(X); X : bar(X)}. {bar(X)} :- dom(X). #show hit/2.",
+    "{p(X)} :- d(X). a(AUX0) :- e(AUX0), 2 { p(X) : d(X) }. #show a/1.",
+    "s(A,B) :- a(A), B = #sum{Y : person(A,Y)}. foo(X,Y0) :- X = #sum{F,V : s(V,F)}, d(Y0). {a(X)} :- d(X). #show foo/2.",
+]
+
 
 def _strip_args(stm: str) -> str:
     import re
@@ -354,6 +362,22 @@ def run(ctx) -> int:
             else:
                 ctx.violations.append({"kind": pr[0], "detail": pr[1], "program": text, "flags": flags, "inp": inp, "outp": outp,
                                        "result": r["result"]})
+    # ---- invented VARIABLES at the pass level: a fresh variable that is not fresh captures a source variable and changes
+    # the meaning, so this clause is observed semantically: programs of the type-directed generators in which a source
+    # variable carries the name a fresh-variable request for another variable would produce (X -> X0, X1)
+    import tgen
+    import semprop
+    gens = [g for k, g in sorted(tgen.GENERATORS.items())]
+    progs = list(HAND_VARS)
+    for k in range(48 if ctx.quick() else 2500):
+        x = gens[k % len(gens)](rng)
+        if isinstance(x, str):
+            y = gen.collide_vars(rng, x)
+            if y != x:
+                progs.append(y)
+    vcases = semprop.oracle_cases(ctx, [default], "out", 0, 0, extra_programs=progs, n_hand=len(HAND_VARS), n_inst=5, one_to_one=False,
+                                  facts_over="in", decl_mix=False)
+    semprop.run_oracle(ctx, vcases, None)
     # replay the listed witnesses
     for fid, f in known.items():
         w = f["witness"]
